@@ -282,6 +282,70 @@ func c05faults(v gen.Variant) []c05fault {
 	return out
 }
 
+// c05entities splits a module text into its top-level entities (byte ranges): a function
+// definition extends to its closing brace, every other entity is one line.
+func c05entities(text string) [][2]int {
+	var out [][2]int
+	off, start := 0, -1
+	for _, line := range strings.SplitAfter(text, "\n") {
+		switch {
+		case start >= 0:
+			if strings.HasPrefix(line, "}") {
+				out = append(out, [2]int{start, off + len(line)})
+				start = -1
+			}
+		case strings.HasPrefix(line, "define") && strings.HasSuffix(strings.TrimSpace(line), "{"):
+			start = off
+		case strings.TrimSpace(line) != "" && line[0] != ' ' && line[0] != '\t' && line[0] != ';':
+			out = append(out, [2]int{off, off + len(line)})
+		}
+		off += len(line)
+	}
+	return out
+}
+
+// c05removed derives the "definition removed" faults of a base module: every top-level entity that
+// defines a name which is used outside of it is deleted (its uses stay). These faults are executed
+// right AFTER the unmodified base module has been parsed in the same goroutine, one at a time: a
+// definition remembered from the earlier parse (a recycled translator, an index that is not
+// emptied, a process-wide cache keyed by name) must not make the reference resolvable.
+func c05removed(v gen.Variant) []c05fault {
+	text := gen.Module([]gen.Variant{v})
+	sites := c05sites(text)
+	var out []c05fault
+	for _, e := range c05entities(text) {
+		var def *c05site
+		for i := range sites {
+			s := &sites[i]
+			if s.def && s.kind != "label" && s.start >= e[0] && s.end <= e[1] {
+				// the entity's own name is its first definition site (parameters come later).
+				def = s
+				break
+			}
+		}
+		if def == nil {
+			continue
+		}
+		if def.kind == "local-or-type" && !strings.HasPrefix(text[e[0]:], "%") {
+			continue // a parameter of a declaration
+		}
+		if len(def.tok) > 1 && def.tok[1] >= '0' && def.tok[1] <= '9' && def.kind != "metadata-id" {
+			continue // removing a NUMBERED entity misnumbers the rest: not an "otherwise valid" input (C08's subject)
+		}
+		used := false
+		for _, s := range sites {
+			if !s.def && s.tok == def.tok && (s.start < e[0] || s.start >= e[1]) {
+				used = true
+			}
+		}
+		if !used {
+			continue
+		}
+		out = append(out, c05fault{v: v, kind: "removed-after-defined", site: def.kind, token: def.tok, text: text[:e[0]] + text[e[1]:]})
+	}
+	return out
+}
+
 type c05case struct {
 	Entry  string   `json:"entry"`
 	Devs   []string `json:"deviations"`
@@ -289,6 +353,7 @@ type c05case struct {
 	Site   string   `json:"site_kind"`
 	Token  string   `json:"token"`
 	Text   string   `json:"faulted_text"`
+	Base   string   `json:"base_text_parsed_first,omitempty"`
 	What   string   `json:"what"`
 	Detail string   `json:"detail,omitempty"`
 }
@@ -305,7 +370,7 @@ func runC05(c *fw.Check) {
 	for i, e := range entries {
 		bases = append(bases, gen.Variants(e, i, bound)...)
 	}
-	c.Rule = fmt.Sprintf("base modules = all variants with <=%d deviations of the %d-production generator catalogue (every kind of reference site occurs: operands, callees, branch targets, phi predecessors, type uses, comdat uses, metadata uses in attachments/tuples/DI fields/named metadata, blockaddress function and block, use-list orders); EVERY tagged use site is redirected to a fresh undefined name and EVERY definition (top-level entity, function, instruction result, label) is duplicated, one fault at a time; oracle: asm.ParseString returns an error and no module and does not panic; a fault the library accepts or crashes on is checked with llvm-as and counts only if LLVM rejects it (binding the fault model); every 16th fault is sent to llvm-as regardless. Undefined attribute-group IDs are the documented exception and are not faulted. distinct = (base module, fault).", bound, len(entries))
+	c.Rule = fmt.Sprintf("base modules = all variants with <=%d deviations of the %d-production generator catalogue (every kind of reference site occurs: operands, callees, branch targets, phi predecessors, type uses, comdat uses, metadata uses in attachments/tuples/DI fields/named metadata, blockaddress function and block, use-list orders); EVERY tagged use site is redirected to a fresh undefined name and EVERY definition (top-level entity, function, instruction result, label) is duplicated, one fault at a time; oracle: asm.ParseString returns an error and no module and does not panic; a fault the library accepts or crashes on is checked with llvm-as and counts only if LLVM rejects it (binding the fault model); every 16th fault is sent to llvm-as regardless. PLUS, sequentially in one goroutine, for every base with <=1 deviations: parse the unmodified base, then the base with ONE top-level definition that is used elsewhere removed (state remembered from the earlier parse must not resolve the name). Undefined attribute-group IDs are the documented exception and are not faulted. distinct = (base module, fault).", bound, len(entries))
 	c.Extra["base_modules"] = len(bases)
 	var mu sync.Mutex
 	type vrec struct {
@@ -393,6 +458,49 @@ func runC05(c *fw.Check) {
 		c.DistinctN(int64(len(fl)))
 		c.Valid(int64(len(fl)))
 	})
+	// Sequential phase: [parse(base); parse(base minus one definition)] in ONE goroutine, nothing
+	// else running, for every base with <=1 deviations.
+	nremoved := 0
+	for _, v := range bases {
+		if len(v.Devs) > 1 || c.OverBudget() {
+			continue
+		}
+		fl := c05removed(v)
+		if len(fl) == 0 {
+			continue
+		}
+		base := gen.Module([]gen.Variant{v})
+		for _, f := range fl {
+			if _, errs, pan := parseTry(base); errs != "" || pan != "" {
+				break
+			}
+			m, errs, pan := parseTry(f.text)
+			nremoved++
+			nfaults++
+			if m == nil && errs != "" && pan == "" {
+				continue
+			}
+			if !fw.HaveLLVM() {
+				continue
+			}
+			lok, lmsg := fw.LLVMAccepts(f.text)
+			if lok {
+				benign++
+				continue
+			}
+			what := "accepted"
+			if pan != "" {
+				what = "panic"
+			} else if errs != "" {
+				what = "module-and-error"
+			}
+			sig := fmt.Sprintf("%s-%s/%s/%s", what, f.kind, f.site, v.Entry)
+			viols = append(viols, vrec{sig, c05case{Entry: v.Entry, Devs: v.Devs, Fault: f.kind, Site: f.site, Token: f.token, Text: fw.Trunc(f.text, 2500), Base: base, What: what + " right after the unmodified module had been parsed in the same process (LLVM: " + fw.Trunc(strings.TrimSpace(lmsg), 160) + ")", Detail: fw.Trunc(errs+pan, 800)}, len(v.Devs)})
+		}
+		c.DistinctN(int64(len(fl)))
+		c.Valid(int64(len(fl)))
+	}
+	c.Extra["faults_definition_removed_after_base_parse"] = nremoved
 	sort.SliceStable(viols, func(i, j int) bool {
 		if viols[i].nd != viols[j].nd {
 			return viols[i].nd < viols[j].nd
@@ -418,6 +526,9 @@ func runC05(c *fw.Check) {
 func replayC05(c *fw.Check, path string) {
 	var cs c05case
 	loadReplay(path, &cs)
+	if cs.Base != "" {
+		parseTry(cs.Base)
+	}
 	m, errs, pan := parseTry(cs.Text)
 	fmt.Printf("replay faulted text:\n%s\nmodule=%v err=%q panic=%q\n", cs.Text, m != nil, fw.Trunc(errs, 300), pan)
 	if m != nil || errs == "" || pan != "" {
